@@ -12,7 +12,7 @@ from mc.ref import cheader, ilog as rilog
 PROPERTY = 'C14'
 LEVEL = 'exploration'
 ENGINE = 'E1'
-TECHNIQUE = ('bounded-exhaustive enumeration: all PTE tables of <= 2 (thorough 3) entries over a 14-entry overlapping-pattern '
+TECHNIQUE = ('bounded-exhaustive enumeration: all PTE tables of <= 2 (thorough 3) entries over an 18-entry overlapping-pattern '
              'alphabet x a 336-entry ILOG alphabet (timestamps x sequence numbers x PTEs around every pattern boundary), '
              'zero entries and trailing partial lengths; both shipped tables with every wildcard fill in a 7-value alphabet x '
              'reported-bit x error-nibble variants and all one-nibble near misses; real parse_ilog_data vs. an independent '
@@ -22,9 +22,9 @@ LEVEL_TEXT = ('The decoder is compared line by line with a reference decoder wri
               'rule) on the complete product of small tables and an entry alphabet that sits on both sides of every pattern '
               'distinction; for the shipped tables every entry is hit through every wildcard fill and missed through every '
               'one-nibble deviation, and the table as read by the repository is compared with an independent scan.')
-LEVEL_NOTE = ('PTE values outside the derived alphabets, multi-digit parameter numbers and header syntax beyond the shipped '
-              'style are not explored; CPython %-formatting trusted')
-RULE = ('synthetic: tables = all sequences of length 0..2 (quick) / 0..3 (thorough) over 14 (pattern, message, params) entries, '
+LEVEL_NOTE = ('PTE values outside the derived alphabets and header syntax beyond the shipped style are not explored; CPython '
+              '%-formatting trusted')
+RULE = ('synthetic: tables = all sequences of length 0..2 (quick) / 0..3 (thorough) over 18 (pattern, message, params) entries (incl. multi-digit parameter numbers, a non-wildcard metacharacter, reported-error catch-all), '
         'each in 2 syntax variants; data = blob of all 336 alphabet entries, the reversed blob with all-zero entries '
         'interleaved, each with trailing partial lengths 0..7. shipped: per table entry, wildcard runs filled jointly with '
         '{0,1,4,5,9,A,F} x reported bit {as is,set,clear} x top nibble {as is,E}; literal patterns x 8 positions x 2 '
